@@ -12,49 +12,64 @@ the start of every run (an oracle self-test; a disagreement aborts the run with 
 
 Contract clauses (one obligation each)
   update-skips-explicitly-or-returns-finite-positive-variance
-      every kernel / wrapper call either returns the explicit skip (kernels: all-NaN tuple; node wrappers: NaN
-      normaliser and the cavity parameters unchanged; mutation wrappers: NaN phase and NaN parameters) or finite
-      moments with variance > 0 (wrappers: finite normaliser, shape alpha+1 > 0, rate > 0).  An exception is
-      neither and fails the clause.
+      evaluated on the *_projection wrappers (these are the EP updates): the call either returns the explicit skip
+      (node wrappers: NaN normaliser and the cavity parameters returned unchanged; mutation wrappers: NaN phase and
+      NaN parameters) or a finite normaliser / phase and a gamma with shape alpha+1 > 0 and rate > 0, i.e. finite
+      mean and positive variance.  An exception is neither and fails the clause.  (A kernel may return a negative
+      variance or a phase outside [0,1]; the wrapper must turn that into the skip - counted in the notes.)
+  The remaining clauses are evaluated on every update that was NOT skipped:
   free-child-below-fixed-parent          leafward: 0 < E[t_j] < t_i
   free-parent-above-fixed-child          rootward: E[t_i] > t_j
   free-parent-older-than-free-child      moments: E[t_i] > E[t_j] > 0
-  mutation-between-ends                  mutation_*: lower end < E[t_m] < upper end (fixed ends, or the exact mean
-                                         of a free end, +5 % slack only where a free end is itself approximated)
-  phase-in-unit-interval                 0 <= P[mutation under i] <= 1 for the unphased / sideways / block / twin
+  mutation-between-ends                  mutation_*: lower end < E[t_m] < upper end (fixed ends exactly; a free end is
+                                         the integrated mean of that end, with the 5 % slack of the mean clause)
+  phase-in-unit-interval                 0 <= phase <= 1 returned by the unphased / sideways / block / twin wrappers
   mean-within-5pct-of-integration        every returned mean (node means and mutation means) agrees with the
                                          integrated mean of the same density to 5 % relative ("a few percent")
+  phase-within-5-points-of-integration   |phase - integrated P[mutation under i]| <= 0.05 (the phase is the mean of
+                                         an indicator; this extends "means agree" to it, in percentage points because
+                                         the exact phase can be arbitrarily close to 0)
   wrapper-projects-kernel-moments        the gamma returned by a *_projection has exactly the kernel's mean and
                                          variance (method of moments; rtol 1e-9, algebraically identical)
   closed-form-cases-exact                child at time zero (rootward, t_j = 0), both ends fixed (mutation_edge,
                                          mutation_block) and twin blocks (twin, mutation_twin): normaliser, mean,
                                          variance and phase equal the exact values to rtol 1e-9
-  known-*                                isolated conditions under which the unchanged code violates
-                                         "mean-within-5pct-of-integration"; see KNOWN below and the run notes.
+  known-*  the same 5 % test as mean-within-5pct-of-integration, isolated on three input conditions (stated on the
+           input / the exact integrated quantities, never on the code's output) where the unchanged code misses it:
+    known-unphased-younger-parent-mean-cancellation   unphased_moments E[t_i] when the exact E[t_i] < 0.2 E[t_j]
+           (E[t_i] is formed as (a_i+a_j+y)/(mu+b_i) - z E[t_j]; the Laplace error of E[t_j] is amplified; observed
+           relative errors up to 23x at y = 1000, shapes ~1; E[t_j] of the same call is accurate, and swapping the
+           two parents gives an accurate value)
+    known-mutation-unphased-mean-cavity-shape-le-1    mutation_unphased_moments E[t_m] when min(a_i, a_j) <= 1
+    known-mutation-sideways-mean-cavity-shape-le-1    mutation_sideways_moments E[t_m] when a_j <= 1
+           (ratios of Laplace approximations with different first parameters; 3.2 % .. 5.3 % observed)
 
 Input space
   (A) argument tuples captured from real ExpectationPropagation runs (approx.*_projection wrapped in-process,
-      needs NUMBA_DISABLE_JIT=1) on small simulated inputs: haploid, unphased diploid, historical samples;
-      a seeded sample of the captured tuples is checked against the oracle.
+      needs NUMBA_DISABLE_JIT=1, otherwise the note says that nothing was captured) on three small simulated inputs:
+      haploid, historical samples, unphased diploid; a seeded sample of the captured tuples goes to the oracle.
   (B) a seeded random sample of the product lattice over the marginal ranges that logged EP runs produced
-      (10 tree sequences, 2.4e6 calls):  shapes a in {1,1.5,3,10,50,300,1000} (also 0.99),
+      (10 tree sequences, 2.4e6 wrapper calls):  shapes a in {0.99,1,1.5,3,10,50,300,1000},
       y in {0,0.3,1,3,10,50,240,1000}, mu/b_i in {1e-4,1e-2,0.1,0.5,1,2}, b_j/b_i in {1e-3,0.03,0.3,1,4,30,460},
-      fixed age x rate in {0.01,0.1,1,3,10,60}, flat cavities (shape 1, rate 0), overall time scale 10^U(-3,3).
-  (C) closed-form cases: exhaustive small lattice (shapes x y x rates x fixed ages).
-  quick:    ~40 oracle cases per family (5 families) + ~60 captured tuples + closed forms        (<= 90 s)
-  thorough: ~900 oracle cases per family + ~600 captured tuples                                  (<= 15 min)
+      fixed age x rate in {0.01,0.1,1,3,10,60} (and t_j = 0), flat parent cavities (shape 1, rate 0) in every tenth
+      point, overall time scale 10^U(-3,3).
+  (C) closed-form cases: twin blocks on shapes x y x rates (quick: 60 seeded of 1024; thorough: all 1024),
+      all 100 ordered pairs of 8 fixed ages (and t_j = 0) for mutation_edge / mutation_block.
+  quick:    45 lattice points per family (5 families) + up to 6 captured tuples per wrapper       (~60 s)
+  thorough: 900 lattice points per family + up to 60 captured tuples per wrapper                   (<= 15 min)
   Not exhaustive (seeded sample of a lattice; the lattice itself is a sample of a continuum).
+  A wall-clock budget (params.budget_s) is a safety net only; any case it drops is reported in the notes.
 
 Tolerances
-  5e-2 relative for means against integration (statement: "within a few percent"); quadrature error estimate is
-  required to be < 1e-8 relative, otherwise the case is reported under notes and not counted.
+  5e-2 relative for means against integration (statement: "within a few percent"; the repository's own tests use
+  1-2 % on four parameter vectors).  The oracle's own quadrature error estimate must be < 1e-8 relative (retried at
+  higher precision), otherwise the case is counted in the notes and not evaluated.
   1e-9 relative for closed forms and the method-of-moments identity (algebraically identical computations).
 
 NOT covered: variances and normalising constants of the Laplace-based branches are not compared with
-integration (the statement only bounds the means; observed variance errors are summarised in the notes);
-improper / invalid cavities (shape <= 0, negative rates) other than the flat cavity; behaviour under JIT
-(this module calls whatever `tsdate.approx` exposes; under NUMBA_DISABLE_JIT=1 those are the plain-Python kernels,
-where math domain errors raise instead of returning NaN).
+integration (the statement only bounds the means); improper / invalid cavities (shape <= 0, negative rates)
+other than the flat cavity; behaviour under JIT (this module calls whatever `tsdate.approx` exposes; under
+NUMBA_DISABLE_JIT=1 those are the plain-Python kernels, where math domain errors raise instead of returning NaN).
 """
 import math
 import time
@@ -151,21 +166,26 @@ def _integrals(logf, lo, hi, weights):
     pts = sorted(pts) + [mp.inf if hi == math.inf else mpf(hi)]
     shift = mpf(fm)
     lo_m, hi_m = pts[0], pts[-1]
-    out = []
-    for w in weights:
-        def g(x, w=w):
-            if x <= lo_m or x >= hi_m:  # a node rounded onto an end point (integrable singularity): measure zero
-                return mpf(0)
-            return w(x) * mp.exp(logf(x, mp.log) - shift)
-        val, err = mpmath.quad(g, pts, error=True, maxdegree=8)
-        out.append((val, err))
-    z = out[0][0]
-    if not (z > 0):
-        raise OracleError("non-positive normaliser")
-    rel = max(abs(e / z) if v == 0 else abs(e / v) for v, e in out)
-    if not (rel <= QUAD_RTOL):  # also catches NaN
-        raise OracleError(f"quadrature error estimate {float(rel):.1e}")
-    return [v for v, _ in out], shift
+    rel = None
+    for attempt in range(3):
+        # mpmath's error estimate is absolute (relative to the integrand scale); when a weighted integral is much
+        # smaller than that scale the estimate is only brought down by working at a higher precision
+        with mp.workdps(mp.dps + 15 * attempt):
+            out = []
+            for w in weights:
+                def g(x, w=w):
+                    if x <= lo_m or x >= hi_m:  # a node rounded onto an end point (integrable singularity): measure zero
+                        return mpf(0)
+                    return w(x) * mp.exp(logf(x, mp.log) - shift)
+                val, err = mpmath.quad(g, pts, error=True, maxdegree=8 + 2 * attempt)
+                out.append((val, err))
+        z = out[0][0]
+        if not (z > 0):
+            raise OracleError("non-positive normaliser")
+        rel = max(abs(e / z) if v == 0 else abs(e / v) for v, e in out)
+        if rel <= QUAD_RTOL:  # False for NaN
+            return [v for v, _ in out], shift
+    raise OracleError(f"quadrature error estimate {float(rel):.1e}")
 
 
 def ref_rootward(t_j, a_i, b_i, y, mu, second=False):
@@ -319,7 +339,6 @@ class Ctx:
         self.worst = {}
         self.oracle_fail = 0
         self.skips = {}
-        self.var_worst = {}
         self.debug = False
         self.phase_out = []
         self.debug_rows = []
@@ -461,8 +480,6 @@ def fam_phased(cx, approx, p, tag):
                     observed={"mn_i": out[1], "mn_j": out[3]}, expected="mn_i > mn_j > 0")
         _mean_case(cx, key, inp, "moments.mn_i", out[1], ref["mn_i"])
         _mean_case(cx, key, inp, "moments.mn_j", out[3], ref["mn_j"])
-        if abs(out[0] - float(ref["logZ"])) > cx.var_worst.get("moments.logl", (0, None))[0]:
-            cx.var_worst["moments.logl"] = (abs(out[0] - float(ref["logZ"])), inp)
     if mok:
         lo, hi = float(ref["mn_j"]), float(ref["mn_i"])
         cx.rep.case("mutation-between-ends", lo * (1 - TOL_MEAN) < mout[0] < hi * (1 + TOL_MEAN), key=key, input=inp,
@@ -819,14 +836,14 @@ def run(req, rep):
     rng = np.random.default_rng(seed)
     from tsdate import approx
 
-    n_lat = int(params.get("n_lattice", 900 if thorough else 40))
+    n_lat = int(params.get("n_lattice", 900 if thorough else 45))
     n_cap = int(params.get("n_captured", 60 if thorough else 6))
     rep.space = ("tsdate.approx moment kernels and projection wrappers on (A) argument tuples captured from real EP runs "
                  "on 3 simulated inputs, (B) a seeded sample of the product lattice shape{0.99..1000} x y{0..1000} x "
                  "mu/b{1e-4..2} x b_j/b_i{1e-3..460} x age*rate{0.01..60} x flat cavities x time scale 10^U(-3,3), "
                  "(C) closed-form cases (twin, t_j=0, both ends fixed); oracle = mpmath quadrature of the stated densities")
     rep.bound = (f"{n_lat} lattice points per family x 5 families; up to {n_cap} captured tuples per wrapper x 10 wrappers; "
-                 f"{'512' if thorough else '60'} twin points, 100 fixed-end pairs; shapes <= 1000, y <= 1000")
+                 f"{'1024' if thorough else '60'} twin points, 100 fixed-end pairs; shapes <= 1000, y <= 1000")
     rep.exhaustive = False
     cx = Ctx(rep)
     cx.debug = bool(params.get("debug"))
@@ -840,7 +857,7 @@ def run(req, rep):
     except Exception as e:
         rep.notes.append(f"capture failed: {type(e).__name__}: {e}")
         cap = {}
-    budget = float(params.get("budget_s", 780 if thorough else 70))
+    budget = float(params.get("budget_s", 800 if thorough else 65))
     dropped = 0
     # interleave families so that a time budget cut is fair
     work = []
